@@ -27,7 +27,7 @@ REPO = Path(os.environ.get('VT_REPO', '/repo'))
 VENV_PY = str(VERIF / '.venv' / 'bin' / 'python')
 WORK = VERIF / '.work'
 _MUT = 'VT_REPO' in os.environ   # mutation trial against a scratch worktree: never touch the committed evidence
-EVIDENCE = (WORK / 'mut_evidence') if _MUT else (VERIF / 'evidence')
+EVIDENCE = Path(os.environ['VT_EVIDENCE_DIR']) if os.environ.get('VT_EVIDENCE_DIR') else ((WORK / 'mut_evidence') if _MUT else (VERIF / 'evidence'))
 REPLAYS = (WORK / 'mut_replays') if _MUT else (VERIF / 'replays')
 FINDINGS_FILE = VERIF / 'known_findings.json'
 
